@@ -527,7 +527,7 @@ def _explain(case, kind, detail):
         return None
     if kind == "schema.columns.*.checks:missing" or kind == "schema.columns.*.parsers:missing":
         t = _tags(detail.get("missing"))
-        if t and t <= a["multi_ref"] and not detail.get("unexpected"):
+        if t and t <= a["multi_ref"]:
             return "C16/multi-field-ref-dedup"
         return None
     if kind == "schema.metadata":
